@@ -224,8 +224,11 @@ static void drv_apply(const vop_t *op, jb_t *res)
         break;
     case 11: {
         cstl_xtor_func_t *f = (cstl_xtor_func_t *)&drv_apply; void *pv = &f; void *p;
+        int hadclr = U[a[0]].clr.func != NULL;
         a_begin(0);
-        p = cstl_unique_ptr_release(&U[a[0]], &f, &pv);
+        /* a[1]: which of the two out-parameters the caller passes (bit 0: clr is NULL, bit 1: priv is NULL) */
+        p = cstl_unique_ptr_release(&U[a[0]], (a[1] & 1) ? NULL : &f, (a[1] & 2) ? NULL : &pv);
+        if (a[1] & 1) f = hadclr ? (cstl_xtor_func_t *)&drv_apply : NULL;
         free(p);                                   /* the caller owns it now */
         a_end();
         jb_printf(res, ",\"ret\":[%d,%d]", p ? 1 : 0, f ? 1 : 0);
@@ -269,7 +272,7 @@ static void drv_opjson(const vop_t *op, jb_t *b)
     case 9: jb_printf(b, "\"op\":\"wreset\",\"w\":%d", a[0]); break;
     case 10: jb_printf(b, "\"op\":\"ualloc\",\"u\":%d,\"clr\":%s,\"ok\":[%s],\"zero\":%s", a[0], a[1] ? "true" : "false",
                        (a[2] & 1) ? "false" : "true", a[3] ? "true" : "false"); break;
-    case 11: jb_printf(b, "\"op\":\"urelease\",\"u\":%d", a[0]); break;
+    case 11: jb_printf(b, "\"op\":\"urelease\",\"u\":%d,\"outs\":%d", a[0], a[1]); break;
     case 12: jb_printf(b, "\"op\":\"uswap\",\"a\":%d,\"b\":%d", a[0], a[1]); break;
     case 13: jb_printf(b, "\"op\":\"ureset\",\"u\":%d", a[0]); break;
     case 14: jb_printf(b, "\"op\":\"uget\",\"u\":%d", a[0]); break;
@@ -326,7 +329,7 @@ static int drv_enum(vop_t *ops, int max)
     for (u = 1; u <= NU; u++) {
         for (c = 0; c < 2; c++) { ADD(10, u, c, 0, 0); if (FAULTS) ADD(10, u, c, 1, 0); }
         ADD(10, u, 0, 0, 1);
-        ADD(11, u, 0, 0, 0); ADD(13, u, 0, 0, 0); ADD(14, u, 0, 0, 0);
+        ADD(11, u, 0, 0, 0); ADD(11, u, 1, 0, 0); ADD(11, u, 2, 0, 0); ADD(11, u, 3, 0, 0); ADD(13, u, 0, 0, 0); ADD(14, u, 0, 0, 0);
         for (t = u + 1; t <= NU; t++) ADD(12, u, t, 0, 0);
     }
     if (STRAY) for (f = 1; f <= NFN; f++) for (pos = 1; pos <= fn_nargs(f); pos++) {
@@ -358,7 +361,7 @@ static int drv_random(unsigned long (*rnd)(void), vop_t *op)
     else if (r < 75 && w && w != w2) { op->k = 8; op->a[0] = w; op->a[1] = w2; }
     else if (r < 82 && w) { op->k = 9; op->a[0] = w; }
     else if (r < 88 && u) { op->k = 10; op->a[0] = u; op->a[1] = (int)(rnd() & 1); op->a[2] = FAULTS && rnd() % 6 == 0; op->a[3] = rnd() % 12 == 0; }
-    else if (r < 91 && u) { op->k = 11; op->a[0] = u; }
+    else if (r < 91 && u) { op->k = 11; op->a[0] = u; op->a[1] = (int)(rnd() % 4); }
     else if (r < 94 && u && u != u2) { op->k = 12; op->a[0] = u; op->a[1] = u2; }
     else if (r < 97 && u) { op->k = 13; op->a[0] = u; }
     else if (u) { op->k = 14; op->a[0] = u; }
